@@ -18,6 +18,20 @@ PROPS = {
                       "shims for take_while(is_ascii_digit).collect, parse::<i64> (1..18 digits only), starts_with(literal); "
                       "axioms |s| <= usize::MAX and the byte range of &s[a..b]. UTF-8 offset facts are proved from vstd::utf8, not assumed.",
     },
+    "C02": {
+        "units": ["dewey"],
+        "always_devs": ["letter_value_is_ascii_code"],
+        "design_ref": "DESIGN.md section 8 / C02",
+        "replay": "dewey",
+        "level_text": "Unbounded proof on the real functions: Dewey::new returns Ok exactly for patterns with one operator or a "
+                      "lower-then-upper pair (operators located over all chars, '=' suffix, byte/char offset lemmas proved from vstd::utf8), "
+                      "with base = text before the first operator and bounds = vtok of the texts between operators; Dewey::matches returns "
+                      "exactly dmatch: last '-' split, byte-equal base, every bound holding under cmp3. todo!() and every slice are "
+                      "proved unreachable/in range.",
+        "level_note": VERUS_TRUST + "shims (assumed std contracts): match_indices(&['>','<']), str::get(a..b), rsplitn(2,'-'), "
+                      "&str != String, s[a..b].to_string(); axiom: str values with equal chars are equal (string-literal patterns). "
+                      "Letter-value deviation of C01 is enabled (immaterial here). Agreement with Pattern::matches is unit pattern's contract (C05).",
+    },
     "C03": {
         "units": ["dewey"],
         "always_devs": ["letter_value_is_ascii_code"],
@@ -28,6 +42,18 @@ PROPS = {
                       "reflexivity, antisymmetry/swap, trichotomy, duality and transitivity are lemmas over cmp3.",
         "level_note": VERUS_TRUST + "assumed contract of core::cmp::min. "
                       "The laws are over arbitrary integer vectors, so they cover whatever DeweyVersion::new returns on any string.",
+    },
+    "C18": {
+        "units": ["pkgname", "dewey"],
+        "always_devs": ["letter_value_is_ascii_code"],
+        "design_ref": "DESIGN.md section 8 / C18",
+        "replay": "pkgname",
+        "level_text": "Unbounded proof: PkgName::new (real code) returns exactly the split at the last '-' for every string "
+                      "(base ++ '-' ++ version == name), reports Some(N) for every version ending in nb<1..18 digits> and None when the "
+                      "version contains no 'nb'; lemma_tok_rev proves by induction over the tokeniser that this N is the revision "
+                      "vtok extracts, and DeweyVersion::new is proved equal to vtok (unit dewey).",
+        "level_note": VERUS_TRUST + "shims (assumed std contracts) for rsplit_once(char), rsplit_once(\"nb\"), parse::<i64>, String::from, "
+                      "Option::or. The Summary::pkgbase()/pkgversion() accessors are covered by unit summary_accessors when listed in coverage.",
     },
 }
 
